@@ -777,9 +777,10 @@ changed), `del_ref`, `add_bases`, `remove_bases`.  This is the premise `hL` of
 `no_stale_in_sub_spaces_after_member_edit`, derived from the definition of the clearing instead of
 assumed. -/
 theorem clearing_covers_every_change (P : Edit.Params) (w : Edit.W) (o : SM.Op) (hi : SM.Inv w.sm)
+    (hsup : Edit.supported o = true)
     (st' : SM.St) (hop : w.sm.apply P.kw o = some st') :
     Edit.Covers (w.tabs.grow st') w.sm st' (Edit.clearing P.kw (w.tabs.grow st') w.sm st' o) :=
-  Edit.stepCovers_of_inv P w (.struct o) hi st' hop
+  Edit.stepCovers_of_inv P w (.struct o) hi hsup st' hop
 
 /-- **`machine_keeps_ci`: every operation of the combined machine keeps the invariant** – for the
 definitions of the NEW structure.  No premise about which cells are notified. -/
@@ -866,9 +867,11 @@ theorem machine_formula_is_source_in_own_space (P : Edit.Params) (lt : Node → 
           (Edit.run P {} ops).sm).toEnv.formula ((Edit.run P {} ops).tabs.cid q n, key)) := by
   have h := (machine_reachable_ci P lt ho ops hadm).1
   have hg : (Edit.run P {} ops).sm.globals = [] := Edit.globals_run P ops {} SM.inv_empty rfl
+  have hpl : ∀ x, Edit.qualOf (Edit.run P {} ops).tabs q x = none :=
+    fun x => Edit.qualOf_none_of_no_slots _ (by rw [Edit.slots_run]) q x
   exact ⟨Edit.envOf_formula_member P _ _ h.alloc q n m hm key,
-    fun gid => Edit.nsAt_eq_nsOf _ _ hg gid q,
-    fun se D gid hdec hnum => Edit.envOf_agrees_with_structEnv P _ _ h.alloc hg se D gid q n m hm key hdec hnum⟩
+    fun gid => Edit.nsAt_eq_nsOf _ _ hg gid q hpl,
+    fun se D gid hdec hnum => Edit.envOf_agrees_with_structEnv P _ _ h.alloc hg se D gid q n m hm key hdec hnum hpl⟩
 
 /-- **The inputs after a structural edit** are the inputs before minus those of the cells the clearing
 removed as objects (`clear_obj`, deletion of the space): notifications and
@@ -884,16 +887,16 @@ turns no failure into a value; `NsScoped`: its by-name reads are of what the nam
 (`SProg.readN` / `SProg.callN`: `LOAD_GLOBAL`, then use) – `Ranked` (termination) remains a
 hypothesis about the structure, free for sources that call nothing (`Edit.ranked_envOf_noCalls`). -/
 theorem structure_regime_from_sources (P : Edit.Params) (t : Edit.Tabs) (st : SM.St) (lt : Node → Node → Prop)
-    (ha : Edit.AllocOK t st) (hnc : ∀ v key, Edit.NsNoCatch (P.srcOf v key))
+    (ha : Edit.AllocOK t st) (hs : t.slots = []) (hnc : ∀ v key, Edit.NsNoCatch (P.srcOf v key))
     (hsc : ∀ v key, Edit.NsScoped (P.srcOf v key)) (hr : Ranked (Edit.envOf P t st) lt) :
     WF (Edit.envOf P t st) lt :=
-  Edit.wf_envOf P t st lt ha hnc hsc hr
+  Edit.wf_envOf P t st lt ha hs hnc hsc hr
 
 /-- …and then EVERY history is admissible -/
 theorem histories_admissible_from_sources (P : Edit.Params) (lt : Node → Node → Prop)
     (hnc : ∀ v key, Edit.NsNoCatch (P.srcOf v key)) (hsc : ∀ v key, Edit.NsScoped (P.srcOf v key))
     (hcalls : ∀ v key, Edit.NsNoCalls (P.srcOf v key)) (ops : List Edit.Op) : Edit.Admissible P lt {} ops :=
-  Edit.admissible_of_sources P lt hnc hsc hcalls ops {} Edit.allocOK_empty
+  Edit.admissible_of_sources P lt hnc hsc hcalls ops {} Edit.allocOK_empty rfl
 
 /-! Non-vacuity (`Proofs/EditMachineExamples.lean`): `Base.f = y * 2`, `Base.y = 1`, `Sub(Base)` with
 its own `y = 10`.  `Sub.f()` – the DERIVED cells, `y` resolved in `Sub` – is 20 and `Base.f()` is 2.
